@@ -22,8 +22,8 @@ PROP = {
             "of several Engine.Delims calls must render as an engine configured by the last call alone (empty-string-selects-default; "
             "shard 0, real engine only, the model has no history of configuration calls). "
             "rex (added to C05 and C19 by EXTRA_STREAMS of checklib/props/__init__.py; harness/stream_rex.go): generated regular expressions printed in Go "
-            "syntax, and the real token matcher of parser.Scan (verif hook parser.VerifTokenMatcher) under generated delimiter lists, are run on "
-            "generated inputs; pattern text and FindStringSubmatchIndex of the first match are compared with the model's printer and matcher.",
+            "syntax, and the pattern text parser.formTokenMatcher builds for generated delimiter lists (read through the verif hook parser.VerifTokenMatcher), are "
+            "compiled with regexp.Compile and run on generated inputs; pattern text and FindStringSubmatchIndex of the first match are compared with the model's printer and matcher.",
     "trusted_base": COMMON_TB + ["the harness's own spell/unspell/Clean (harness/tokitems.go) define which sources count as 'the same template'"],
     "assumptions": ["harness Clean(d, items) (harness/tokitems.go; decides which templates the delims stream keeps): every occurrence "
                     "of a delimiter of d in the spelled source lies inside a delimiter that spell "
